@@ -613,6 +613,8 @@ def run(tier, replay=None):
   n_fam = 16 if tier == 'quick' else 300
   for i in range(n_fam):
     progs.append(c09_gen.shared_with_family(r))
+  for i in range(n_fam // 2):
+    progs.append(c09_gen.dotted_table_family(r))
   fixed = [{'text': SUBSCRIPT_PROGRAM, 'pred': 'P', 'tags': ['fixed:subscript']},
            {'text': REST_PROGRAM, 'pred': 'P', 'tags': ['fixed:rest-of']},
            {'text': UNTYPED_REST_PROGRAM, 'pred': 'D2', 'tags': ['fixed:rest-of-untyped'], 'ext': ['T0']}]
@@ -813,8 +815,8 @@ def run(tier, replay=None):
       'dead_dialect_entries': [list(c) for c in (dead or [])],
       'instantiation_cases': n_tie,
       'instantiation_mismatches': (bad or [])[:10],
-      'programs': n_prog + n_mal + n_fam + len(fixed),
-      'programs_by_kind': {'generated': n_prog, 'malformed': n_mal, 'shared_with_family': n_fam, 'fixed': len(fixed)},
+      'programs': n_prog + n_mal + n_fam + n_fam // 2 + len(fixed),
+      'programs_by_kind': {'generated': n_prog, 'malformed': n_mal, 'shared_with_family': n_fam, 'dotted_table_family': n_fam // 2, 'fixed': len(fixed)},
       'compile_status': status_count,
       'compiled_ok': n_ok,
       'statements_judged': len(cases),
